@@ -25,7 +25,7 @@ def run_e2(hbin, model, runs, par=4, timeout_s=300, ld=None):
     def one(argv):
         t0 = time.time()
         try:
-            h = subprocess.run([hbin] + [str(a) for a in argv], capture_output=True, text=True, timeout=timeout_s)
+            h = subprocess.run([hbin] + [str(a) for a in argv], capture_output=True, text=True, errors='replace', timeout=timeout_s)
             raw, err, rc = h.stdout, h.stderr[-400:], h.returncode
         except subprocess.TimeoutExpired as e:
             raw = (e.stdout or b'').decode(errors='replace') if isinstance(e.stdout, bytes) else (e.stdout or '')
@@ -95,7 +95,7 @@ def run(spec):
     ok_p, plog = pika_build(spec.get('variant', 'hooks'))
     ok_h, hbin, hlog = (False, '', '')
     if ok_p:
-        ok_h, hbin, hlog = compile_harness(spec['bin'], spec['harness'], spec.get('variant', 'hooks'))
+        ok_h, hbin, hlog = compile_harness(spec['bin'], spec['harness'], spec.get('variant', 'hooks'), extra=spec.get('cc_extra', '-O1'))
     if not (ok_p and ok_h):
         p = write_replay(prop, f'build-failure-{base_seed}.txt', (plog if not ok_p else hlog))
         write_evidence(prop, tr, base_seed, {'obligations': obligations, 'discharged': discharged,
